@@ -383,11 +383,29 @@ pub fn make_edits(cur: &str, tgt: &str, sw: &Swarm, rng: &mut Rng) -> Vec<Vec<Ch
         }]];
     }
     // group into notifications of 1..4 changes
-    let mut out = Vec::new();
+    let mut out: Vec<Vec<Chg>> = Vec::new();
     let mut it = changes.into_iter().peekable();
+    let mut before = cur.to_string();
     while it.peek().is_some() {
         let n = rng.range(1, 4);
-        out.push(it.by_ref().take(n).collect());
+        let mut note: Vec<Chg> = it.by_ref().take(n).collect();
+        let mut after = before.clone();
+        for c in &note {
+            position::apply_change(&mut after, c.range, &c.text);
+        }
+        // now and then a notification mixes both kinds of change: the whole text as it was,
+        // then the ranged edits; or the ranged edits, then the whole text as it has become
+        match rng.below(16) {
+            0 => note.insert(0, Chg { range: None, text: before.clone() }),
+            1 => note.push(Chg { range: None, text: after.clone() }),
+            2 => {
+                note.insert(0, Chg { range: None, text: before.clone() });
+                note.push(Chg { range: None, text: after.clone() });
+            }
+            _ => {}
+        }
+        before = after;
+        out.push(note);
     }
     out
 }
@@ -435,6 +453,8 @@ struct Builder<'a> {
     b_variants: Vec<Files>,
     /// where the last prepareRename was asked (a rename often follows at the same place)
     prepared: Option<(String, Pos)>,
+    /// the main module `oal.toml` names on disk at the moment
+    main_now: String,
 }
 
 impl Builder<'_> {
@@ -575,6 +595,22 @@ impl Builder<'_> {
             // the folder is announced a second time
             self.events.push(Ev::Folder { add: true, b: false });
         }
+        if self.sw.folder_events && self.sched.chance(1, 25) && !self.full() {
+            // the configuration changes on disk, then the folder is announced again (or for
+            // the first time again): that is when a server reads it
+            let mods: Vec<String> = self.disk.keys().filter(|p| !p.starts_with("fb/")).cloned().collect();
+            if !mods.is_empty() {
+                let main = if self.sched.chance(1, 3) { "main.oal".to_string() } else { self.sched.pick(&mods).clone() };
+                self.main_now = main.clone();
+                self.events.push(Ev::ConfigOnDisk { main });
+                if self.folder_present && self.sched.chance(1, 3) {
+                    self.events.push(Ev::FolderReadd { b: false });
+                } else {
+                    self.folder_present = true;
+                    self.events.push(Ev::Folder { add: true, b: false });
+                }
+            }
+        }
         if self.sched.chance(1, 40) {
             // re-read the configuration: removed and added in one notification
             let b = !self.b_variants.is_empty() && self.sched.chance(1, 2);
@@ -584,7 +620,7 @@ impl Builder<'_> {
         }
         if self.sw.external && self.sched.chance(1, 15) {
             // a module that is not open vanishes from disk
-            let cands: Vec<String> = self.disk.keys().filter(|p| !self.open.contains_key(*p) && !p.ends_with("main.oal")).cloned().collect();
+            let cands: Vec<String> = self.disk.keys().filter(|p| !self.open.contains_key(*p) && !p.ends_with("main.oal") && **p != self.main_now).cloned().collect();
             if !cands.is_empty() {
                 let p = self.sched.pick(&cands).clone();
                 let t = self.disk.remove(&p).unwrap();
@@ -631,6 +667,15 @@ impl Builder<'_> {
                     self.open.remove(&p);
                     self.events.push(Ev::Close { path: p.clone() });
                 }
+            }
+        }
+        if self.sched.chance(1, 40) && !self.full() {
+            // an open document is announced again, with the text the client has for it
+            let opens: Vec<String> = self.open.keys().cloned().collect();
+            if !opens.is_empty() {
+                let p = self.sched.pick(&opens).clone();
+                let text = self.open[&p].clone();
+                self.events.push(Ev::Reopen { path: p, text });
             }
         }
         if self.sw.toml_edits && self.sched.chance(1, 10) && !self.full() {
@@ -837,6 +882,7 @@ pub fn plan(seed: u64, prop: &str, run: u64, sem: Sem) -> Plan {
         deleted: BTreeMap::new(),
         b_variants,
         prepared: None,
+        main_now: "main.oal".into(),
     };
     let mut reached = BTreeMap::new();
     for (ti, tgt) in targets.iter().enumerate() {
